@@ -91,6 +91,25 @@ pub fn compare_with_model(ctx: &Ctx, prop: &str, case: Case, st: &mut Stats) -> 
             return Err(Fail::new(msg, detail(&case, &model, extra)));
         }
     }
+    // C04 "token for token": two tokens of the source must not run into one another where a conditional directive was
+    // removed. The model drops the same white space as the implementation (that owned by the operand of `ifdef /
+    // `ifndef / `elsif and by `else), so its text shows the same merged token; that is listed finding K7.
+    if prop == "C04" {
+        if let (Ok((ppt, _)), None) = (&actual, &model.err) {
+            // (the token sequences of model text and implementation output are equal at this point)
+            let glued = run::glued_tokens(&model.out, &model.cond_barriers);
+            if !glued.is_empty() {
+                if ctx.findings.is_known(prop, "K7") {
+                    st.known("K7");
+                } else {
+                    return Err(Fail::new(
+                        format!("tokens run into one another where a conditional directive was removed: {:?}", glued),
+                        detail(&case, &model, json!({"actual_text": clip(ppt.text(), 4000)})),
+                    ));
+                }
+            }
+        }
+    }
     let (actual_text, actual) = match actual {
         Ok((t, d)) => (Some(t.text().to_string()), Some((t, d))),
         Err(_) => (None, None),
